@@ -26,6 +26,17 @@ Theorem C06_step : forall (pol : policy) (insts : list inst) (arr : list larr),
   /\ lfinal s = Some (match insts with [] => Skipped | _ => Completed end).
 Proof. exact loop_step_thm. Qed.
 
+(* the same with the termination token carrying ANY status (a loop whose instances all iterate zero times delivers
+   SKIPPED on the real engine): same outputs, the final status follows the status *)
+Theorem C06_step_any_status : forall (pol : policy) (insts : list inst) (arr : list larr) (st : status),
+  Forall inst_ok insts -> NoDup (map ikey insts) -> Permutation arr (all_larr insts) ->
+  let s0 := loop_run pol arr in
+  let s := loop_run pol (arr ++ [LTerm st]) in
+  lfinal s0 = None /\ lout s = lout s0
+  /\ Permutation (lout s) (map (lexpected pol) insts)
+  /\ lfinal s = Some (get_status (reduce_statuses [Skipped; st]) (match insts with [] => true | _ => false end)).
+Proof. exact loop_step_thm_st. Qed.
+
 (* the same, read per policy *)
 Theorem C06_step_all : forall (insts : list inst) (arr : list larr),
   Forall inst_ok insts -> NoDup (map ikey insts) -> Permutation arr (all_larr insts) ->
@@ -106,20 +117,22 @@ Proof. exact ex_run. Qed.
    the loop-when step / on its way back / decided) together with the exact multiset of its tokens that went
    towards L, preserved by the seven moves; C06_no_early_exit; C06_step for what L makes of that multiset. *)
 Theorem C06_loop_network :
-  forall (pol : policy) (val : tag -> string) (cont : tag -> bool) (insts : list tag) (d : nat),
+  forall (pol : policy) (val : tag -> string) (tst : status) (cont : tag -> bool) (insts : list tag) (d : nat),
   1 <= d -> (forall p, In p insts -> length p = d) -> NoDup insts ->
-  forall s, rreach pol val cont insts s ->
+  forall s, rreach pol val tst cont insts s ->
   (lgot s = false -> lfinal (fst (ls s)) = None) /\
   (lgot s = true ->
      let k := kof s in
      (forall p, In p insts -> (forall j, j < k p -> cont (itag p j) = true) /\ cont (itag p (k p)) = false) /\
      Permutation (lout (fst (ls s))) (map (fun p => lexpected pol (p, iters val p (k p))) insts) /\
-     lfinal (fst (ls s)) = Some (match insts with [] => Skipped | _ => Completed end)).
+     (* [tst] = the status carried by the termination token that reaches the step: COMPLETED gives COMPLETED
+        (SKIPPED without instances), SKIPPED -- what the engine delivers when no instance iterates -- gives SKIPPED *)
+     lfinal (fst (ls s)) = Some (get_status (reduce_statuses [Skipped; tst]) (match insts with [] => true | _ => false end))).
 Proof. exact loop_network. Qed.
 (* a reachable state of that network in which L has taken the termination token: one instance, one iteration, the
    iteration-termination token overtaking the iteration token on the way to L (16 moves) *)
 Theorem C06_loop_network_nonvacuous :
-  exists s, rreach OutAll ex_val ex_cont1 [[0%N]] s /\ lgot s = true /\
+  exists s, rreach OutAll ex_val Completed ex_cont1 [[0%N]] s /\ lgot s = true /\
             lout (fst (ls s)) = [ListTok "0" [Tok "0.0" "0.0"]] /\ kof s [0%N] = 1.
 Proof. exact ex_real_run. Qed.
 
@@ -161,22 +174,24 @@ Proof. exact no_early_exit_k. Qed.
        p.(kiter s p); 0 and >= 10 included) and that step has emitted exactly one token per instance -- the values of
        output j in iteration order (all) / the last one or null (last) -- and only then terminated. *)
 Theorem C06_loop_network_k :
-  forall (polf : nat -> policy) (valf : nat -> tag -> string) (cont : tag -> bool) (insts : list tag) (k m d : nat),
+  forall (polf : nat -> policy) (valf : nat -> tag -> string) (tstf : nat -> status) (cont : tag -> bool)
+         (insts : list tag) (k m d : nat),
   1 <= k -> 1 <= d -> (forall p, In p insts -> length p = d) -> NoDup insts ->
-  forall s, kreal polf valf cont insts k m s ->
+  forall s, kreal polf valf tstf cont insts k m s ->
   forall j, j < m ->
   (nlgot s j = false -> lfinal (fst (nls s j)) = None) /\
   (nlgot s j = true ->
      (forall p, In p insts -> (forall i, i < kiter s p -> cont (G.itag p i) = true) /\ cont (G.itag p (kiter s p)) = false) /\
      Permutation (lout (fst (nls s j)))
                  (map (fun p => lexpected (polf j) (p, G.iters (valf j) p (kiter s p))) insts) /\
-     lfinal (fst (nls s j)) = Some (match insts with [] => Skipped | _ => Completed end)).
+     lfinal (fst (nls s j)) = Some (get_status (reduce_statuses [Skipped; tstf j]) (match insts with [] => true | _ => false end))).
 Proof. exact loop_network_k. Qed.
 (* two input variables, two outputs (all / last), one instance, zero iterations: 20 moves reach the state in which
    both loop output steps have taken their termination token *)
 Theorem C06_loop_network_k_nonvacuous :
-  exists s, kreal ex_polf ex_valf ex_cont0 [[0%N]] 2 2 s /\ nlgot s 0 = true /\ nlgot s 1 = true /\
-            lout (fst (nls s 0)) = [ListTok "0" []] /\ lout (fst (nls s 1)) = [Tok "0" "null"].
+  exists s, kreal ex_polf ex_valf ex_tstf ex_cont0 [[0%N]] 2 2 s /\ nlgot s 0 = true /\ nlgot s 1 = true /\
+            lout (fst (nls s 0)) = [ListTok "0" []] /\ lout (fst (nls s 1)) = [Tok "0" "null"] /\
+            lfinal (fst (nls s 0)) = Some Skipped.
 Proof. exact ex_k_run. Qed.
 
 (* k loop variables, STEP level only (Loop/CombK.v: LoopCombinatorStep with k input ports, per-port checklists and
@@ -237,6 +252,7 @@ Example C06_iteration_tags_example :
 Proof. vm_compute. reflexivity. Qed.
 
 Print Assumptions C06_step.
+Print Assumptions C06_step_any_status.
 Print Assumptions C06_step_all.
 Print Assumptions C06_step_last.
 Print Assumptions C06_sort_canonical.
